@@ -96,4 +96,32 @@ def slotReads (g : G) (s : Nat) : List Nat :=
 
 def calcSlots (g : G) : List Nat := dedupNat ((g.toList.filter (fun n => n.live && n.isCalc)).map (·.sid))
 
+/-! ## the invariant of the inspectable graph, as an executable test (C08) -/
+
+/-- every dependency is listed on both ends (the code matches children and ancestors by slot id) -/
+def bidirectional (g : G) : Bool :=
+  g.toList.all (fun n => !n.live ||
+    (n.anc.all (fun a => ((g.node a).chi.map (fun c => (g.node c).sid)).contains n.sid) &&
+     n.chi.all (fun c => ((g.node c).anc.map (fun a => (g.node a).sid)).contains n.sid)))
+
+/-- only values currently held by the model are referred to -/
+def liveOnly (g : G) : Bool :=
+  g.toList.all (fun n => !n.live || (n.anc.all (fun a => (g.node a).live) && n.chi.all (fun c => (g.node c).live)))
+
+/-- Kahn's algorithm on the slot-level graph: repeatedly remove slots all of whose reads are removed -/
+def kahn (reads : Nat → List Nat) : Nat → List Nat → List Nat → List Nat
+  | 0, _, done => done
+  | fuel + 1, todo, done =>
+    let ready := todo.filter (fun s => (reads s).all (fun r => done.contains r || !todo.contains r))
+    if ready.isEmpty then done else kahn reads fuel (todo.filter (fun s => !ready.contains s)) (done ++ ready)
+
+def liveSlots (g : G) : List Nat := dedupNat ((g.toList.filter (·.live)).map (·.sid))
+
+/-- the slot-level graph has no cycle -/
+def acyclic (g : G) : Bool :=
+  let slots := liveSlots g
+  (kahn (slotReads g) (slots.length + 1) slots []).length == slots.length
+
+def graphInv (g : G) : Bool := bidirectional g && liveOnly g && acyclic g
+
 end Efp.Graph
